@@ -67,7 +67,25 @@ def batches(ctx):
     out.append(("ReactionS/exhaustive-depth-3", hs, 7, [R, C], len(setup)))
     # long random histories, all classes, subclasses mixed in
     n, ln = (300, 40) if quick else (5000, 100)
-    out.append(("all-classes/random", [rh.random_history(rng, ln) for _ in range(n)], rh.NSLOTS, rh.ALL))
+    rnd = [rh.random_history(rng, ln) for _ in range(n)]
+    out.append(("all-classes/random", rnd, rh.NSLOTS, rh.ALL))
+    # (no new random draws below this line)
+    # one domain name and length live in three classes of the family at once (base, subclass, sibling): complements taken
+    # in every class from every class's object, look-ups of the complementary name, drops -- each class has its own memory
+    fam = (D, rh.DA, rh.DB)
+    setup3 = [rh.dom(k, c, "a", 5) for k, c in enumerate(fam)]
+    a = [rh.inv(3 + i, j) for i in range(3) for j in range(3)] + [rh.dom(3 + i, c, "a*") for i, c in enumerate(fam)]
+    a += [rh.drop(k) for k in range(6)]
+    hs = [setup3 + h for h in rh.all_histories(a, 3)]
+    out.append(("DomainS-family/one-name-in-three-classes/exhaustive-depth-3", hs, 6, list(fam), len(setup3)))
+    # reading leaves no trace: the same model answers when every read-only accessor of every held object is read after
+    # every operation (zoo variant 3 of impl/registry.py)
+    cs = next(b for b in out if b[0].startswith("ComplexS/"))
+    step = 12 if quick else 2
+    out.append(("ComplexS/read-only-accessors-after-every-step", cs[1][::step], 4, [C], len(SETUP_DOMS), [rh.READS_VARIANT]))
+    ms = next(b for b in out if b[0].startswith("MacrostateS/"))
+    out.append(("MacrostateS/read-only-accessors-after-every-step", ms[1][::2 * step], 7, [M, C], ms[4], [rh.READS_VARIANT]))
+    out.append(("all-classes/random/read-only-accessors-after-every-step", rnd[::3], rh.NSLOTS, rh.ALL, 0, [rh.READS_VARIANT]))
     return out
 
 
@@ -75,7 +93,9 @@ RULE = ("per class every history of depth 3 (quick) / 4 (thorough; 3 for contain
         "three complexes in every rotation (rotationally symmetric, identical strands), named/unnamed/conflicting names, "
         "name look-ups, ~, drops, macrostates and reactions over a fixed population in every member order incl. an equal "
         "complex of a subclass, the members / reactants / products handed over as tuple, list and deque in turn (by position "
-        "in the history, so every member order meets every container); plus random histories of length 40/100 over all 25 classes of the zoo; compared after every "
+        "in the history, so every member order meets every container); one domain name and length live in three classes of the "
+        "family with ~ taken across them; a sample of the complex / macrostate histories and of the random ones with every "
+        "read-only accessor of every held object read after every operation (same model answers); plus random histories of length 40/100 over all 25 classes of the zoo; compared after every "
         "step: outcome kind, existing, slot identities, both registries, attributes, counters, weakref liveness; distinct = "
         "distinct final observable states on which model and implementation agree")
 
